@@ -55,6 +55,10 @@ def run(report, db, tier):
                 'compression_threshold', 'compression_enabled'),
             what='compression threshold') or 0
     report.floor('set-compression paths checked', nsw, 2)
+    R7 = report.rule('R12.7', '"also under encryption": the cipher wrapper '
+                     'hands every write to the socket at once (a single '
+                     'pass-through update, nothing held back)')
+    shared.wrapper_passthrough_ps(report, R7, db)
 
 
 # ---------------------------------------------------------------------------
